@@ -180,11 +180,39 @@ func init() {
 	})
 	copyModel := func(limit bool) modelFn {
 		return func(x *Exec, fr *Frame, st *State, a []Value, pos token.Pos, rt types.Type) (Value, bool) {
+			// composition with the package's hardLimitReader (whose Read is verified to add n to
+			// h.read and to return a non-EOF error once h.read exceeds h.limit): the bytes copied
+			// are exactly the growth of h.read, and a nil result means the limit was not exceeded
+			var hlr Term
+			var read0 Term
+			hlrT := x.eng.namedType(x.eng.home.Path(), "hardLimitReader")
+			stt, skey := structOf(hlrT)
+			fieldIdx := func(name string) int {
+				for i := 0; stt != nil && i < stt.NumFields(); i++ {
+					if stt.Field(i).Name() == name {
+						return i
+					}
+				}
+				return -1
+			}
+			if iv, ok := a[1].(VIface); ok && stt != nil {
+				if l, ok := iv.Tag.Lit(); ok && l.Int64() == x.eng.typeTag(types.NewPointer(hlrT)) && fieldIdx("read") >= 0 {
+					hlr = iv.Val
+					read0 = tOf(x.loadField(st, hlr, stt, skey, fieldIdx("read")))
+				}
+			}
 			x.homeMethodEffect(st, a[1], "Read")
 			x.homeMethodEffect(st, a[0], "Write")
 			n := x.vc.Fresh("cpn", SInt)
 			e := x.freshErr("cperr")
 			x.assume(st, Ge(n, IntLit(0)))
+			if hlr.Valid() {
+				read1 := tOf(x.loadField(st, hlr, stt, skey, fieldIdx("read")))
+				lim := tOf(x.loadField(st, hlr, stt, skey, fieldIdx("limit")))
+				x.assume(st, Eq(n, Sub(read1, read0)))
+				x.assume(st, Implies(Eq(e.Tag, IntLit(0)), Le(read1, lim)))
+				x.vc.assumption("io.Copy over *hardLimitReader: bytes copied == growth of h.read; nil error implies h.read <= h.limit (from the verified contract of hardLimitReader.Read)")
+			}
 			if limit {
 				k := tOf(a[2])
 				x.assume(st, And(Le(n, Ite(Ge(k, IntLit(0)), k, IntLit(0))), Eq(Eq(e.Tag, IntLit(0)), Eq(n, Ite(Ge(k, IntLit(0)), k, IntLit(0))))))
